@@ -1,0 +1,26 @@
+// SPDX-FileCopyrightText: 2023 The Pion community <https://pion.ly>
+// SPDX-License-Identifier: MIT
+
+//go:build verif
+
+package codecs
+
+// Verification hooks. This file is only compiled with the verif build tag.
+// VerifRetained exposes the byte slices an instance keeps between calls, so
+// that a monitor can check by address range that none of them lies inside
+// memory the caller passed in.
+
+// VerifRetained returns the held-back parameter sets.
+func (p *H264Payloader) VerifRetained() [][]byte {
+	return [][]byte{p.spsNalu, p.ppsNalu}
+}
+
+// VerifRetained returns the FU-A reassembly buffer.
+func (p *H264Packet) VerifRetained() [][]byte {
+	return [][]byte{p.fuaBuffer}
+}
+
+// VerifRetained returns the OBU fragment buffer.
+func (d *AV1Depacketizer) VerifRetained() [][]byte {
+	return [][]byte{d.buffer}
+}
